@@ -73,10 +73,10 @@ def spans_window(lines):
     return max(ds) - min(ds) >= 29
 
 
-def mk(idx, prefix, lines, base=BASES[0], **opts):
+def mk(idx, id_prefix, lines, base=BASES[0], **opts):
     o = {"mode": "QPF"}
     o.update(opts)
-    return {"id": f"{prefix}{idx}", "base": base, "lines": lines, "opts": o}
+    return {"id": f"{id_prefix}{idx}", "base": base, "lines": lines, "opts": o}
 
 
 def shape(sk):
